@@ -1,6 +1,7 @@
 package main
 
 import (
+	"bytes"
 	"encoding/json"
 	"fmt"
 	"math/rand"
@@ -165,6 +166,35 @@ func applyOp(op string, parent *forge.Node, ci int) bool {
 		ins := map[string][]byte{"mid-percent": []byte("%2G"), "mid-space": []byte(" "), "mid-control": {0x7f}, "mid-colon": []byte(":x:"), "mid-at": []byte("@@"), "mid-bracket": []byte("[")}[op]
 		at := len(n.Content) * 2 / 3
 		n.Content = append(append(append([]byte{}, n.Content[:at]...), ins...), n.Content[at:]...)
+	case "label-empty-first", "label-empty-mid", "label-empty-last", "label-drop-mid", "label-dup-mid", "label-long-mid", "label-two-chars", "label-nondigit":
+		// dotted names (host names, reverse-DNS names, mail domains): one label emptied (the number of labels stays), dropped,
+		// repeated, made longer than 63 octets, given a second character, or made non-numeric
+		if !leaf || bytes.Count(n.Content, []byte(".")) < 1 || len(n.Content) > 400 {
+			return false
+		}
+		labels := bytes.Split(n.Content, []byte("."))
+		at := map[string]int{"label-empty-first": 0, "label-empty-last": len(labels) - 1}[op]
+		if _, ok := map[string]int{"label-empty-first": 0, "label-empty-last": 0}[op]; !ok {
+			at = len(labels) / 3
+		}
+		switch op {
+		case "label-empty-first", "label-empty-mid", "label-empty-last":
+			if len(labels[at]) == 0 {
+				return false
+			}
+			labels[at] = []byte{}
+		case "label-drop-mid":
+			labels = append(labels[:at], labels[at+1:]...)
+		case "label-dup-mid":
+			labels = append(labels[:at+1], append([][]byte{labels[at]}, labels[at+1:]...)...)
+		case "label-long-mid":
+			labels[at] = bytes.Repeat([]byte("l"), 64)
+		case "label-two-chars":
+			labels[at] = append(append([]byte{}, labels[at]...), 'f')
+		case "label-nondigit":
+			labels[at] = []byte("z")
+		}
+		n.Content = bytes.Join(labels, []byte("."))
 	case "duplicate-node":
 		parent.Children = append(parent.Children[:ci+1], append([]*forge.Node{n.Clone()}, parent.Children[ci+1:]...)...)
 	case "delete-node":
@@ -269,18 +299,35 @@ func cmdMutate(args []string) {
 			if rs == nil {
 				continue
 			}
+			// (a carrier for every verdict of every lint, and a second one: the object a verdict is met on last as well as first -
+			// a rule's test objects for its IPv4 and its IPv6 branch, its SAN and its common-name branch, differ)
 			gain := 0
 			for name, r := range rs.Results {
-				if r != nil && r.Status > lint.NA && !covered[name] {
+				if r != nil && r.Status > lint.NE && !covered[fmt.Sprintf("%s|%d", name, r.Status)] {
 					gain++
 				}
 			}
 			if gain > 0 {
 				chosen[i] = true
 				for name, r := range rs.Results {
-					if r != nil && r.Status > lint.NA {
-						covered[name] = true
+					if r != nil && r.Status > lint.NE {
+						covered[fmt.Sprintf("%s|%d", name, r.Status)] = true
 					}
+				}
+			}
+		}
+	}
+	if only == "" && tier != "thorough" {
+		covered2 := map[string]bool{}
+		for i := len(objs) - 1; i >= 0; i-- {
+			rs, _, _ := runSet(objs[i], g)
+			if rs == nil {
+				continue
+			}
+			for name, r := range rs.Results {
+				if k := fmt.Sprintf("%s|%d", name, r.Status); r != nil && r.Status > lint.NE && !covered2[k] {
+					covered2[k] = true
+					chosen[i] = true
 				}
 			}
 		}
